@@ -38,7 +38,9 @@ SCOPES = FN + (ast.ClassDef, ast.Lambda, ast.ListComp, ast.SetComp,
 PURE_CALLS = {'str', 'int', 'bool', 'float', 'len', 'set', 'list', 'tuple',
               'dict', 'frozenset', 'sorted', 'min', 'max', 'isinstance',
               'repr', 'abs', 'any', 'all', 'sum', 'reversed', 'enumerate',
-              'zip', 'range', 'Path', 'quote', 'compile'}
+              'zip', 'range', 'Path', 'quote', 'compile',
+              # (reading an attribute by name is as pure as `x.a`)
+              'getattr', 'hasattr'}
 
 _REF = None
 
